@@ -202,24 +202,33 @@ Record op := mkOp { op_req : ureq; op_inv : N; op_ret : N; op_resp : cresp }.
 Definition minimal (x : nat * op) (pending : list (nat * op)) : bool :=
   forallb (fun y => Nat.eqb (fst y) (fst x) || negb (N.ltb (op_ret (snd y)) (op_inv (snd x)))) pending.
 
-Fixpoint lin_search (fuel : nat) (w : cworld) (s : store) (pending : list (nat * op)) (obs_store : cstore) : bool :=
+Definition drop (i : nat) (pending : list (nat * op)) : list (nat * op) :=
+  filter (fun y => negb (Nat.eqb (fst y) i)) pending.
+
+(* depth-first search with a budget of visited nodes: (found, budget left); (false, 0) = gave up *)
+Fixpoint lin_b (fuel : nat) (w : cworld) (obs_store : cstore) (s : store) (pending : list (nat * op)) (budget : N)
+  : bool * N :=
   match pending with
-  | [] => cstore_eqb (canon_store s) obs_store
+  | [] => (cstore_eqb (canon_store s) obs_store, budget)
   | _ =>
       match fuel with
-      | O => false
+      | O => (false, budget)
       | S f =>
-          existsb (fun x =>
-                     minimal x pending &&
-                     (let '(s1, o) := ureq_spec w s (op_req (snd x)) in
-                      cresp_eqb (canon o) (op_resp (snd x)) &&
-                      lin_search f w s1 (filter (fun y => negb (Nat.eqb (fst y) (fst x))) pending) obs_store)) pending
+          (fix try (cands : list (nat * op)) (budget : N) : bool * N :=
+             match cands with
+             | [] => (false, budget)
+             | x :: rest =>
+                 if N.eqb budget 0 then (false, 0) else
+                 if minimal x pending then
+                   let '(s1, o) := ureq_spec w s (op_req (snd x)) in
+                   if cresp_eqb (canon o) (op_resp (snd x)) then
+                     let '(ok, b') := lin_b f w obs_store s1 (drop (fst x) pending) (N.pred budget) in
+                     if ok then (true, b') else try rest b'
+                   else try rest budget
+                 else try rest budget
+             end) pending budget
       end
   end.
-
-Definition linearisable (w : cworld) (setup : list ureq) (ops : list op) (obs_store : cstore) : bool :=
-  let s0 := fst (run_spec w empty_store setup) in
-  lin_search (S (length ops)) w s0 (index_from 0 ops) obs_store.
 
 (* The weaker reading, used to classify a history that is not linearisable at request level: the units are
    critical sections.  The gate's provisioning and the handler are separate transactions of one request;
@@ -230,28 +239,46 @@ Definition ureq_body (w : cworld) (s : store) (ir : ureq) : store * response :=
 Definition ureq_prov (w : cworld) (s : store) (ir : ureq) : store :=
   let '(u, pol) := nth_user (cw_world w) (fst ir) in prov_spec (cw_pre w) pol u s.
 
-Fixpoint lin_sections (fuel : nat) (w : cworld) (s : store) (pending : list (nat * op)) (proved : list nat)
-                      (obs_store : cstore) : bool :=
+Fixpoint lin_s (fuel : nat) (w : cworld) (obs_store : cstore) (s : store) (pending : list (nat * op))
+               (proved : list nat) (budget : N) : bool * N :=
   match pending with
-  | [] => cstore_eqb (canon_store s) obs_store
+  | [] => (cstore_eqb (canon_store s) obs_store, budget)
   | _ =>
       match fuel with
-      | O => false
+      | O => (false, budget)
       | S f =>
-          existsb (fun x =>
-                     minimal x pending &&
-                     ((* the handler section of x, on the store as it is *)
-                      (let '(s1, o) := ureq_body w s (op_req (snd x)) in
-                       cresp_eqb (canon o) (op_resp (snd x)) &&
-                       lin_sections f w s1 (filter (fun y => negb (Nat.eqb (fst y) (fst x))) pending) proved obs_store)
-                      ||
-                      (* or the provisioning section of x, if it has not run yet and changes something *)
-                      (negb (existsb (Nat.eqb (fst x)) proved) &&
-                       negb (cstore_eqb (canon_store (ureq_prov w s (op_req (snd x)))) (canon_store s)) &&
-                       lin_sections f w (ureq_prov w s (op_req (snd x))) pending (fst x :: proved) obs_store))) pending
+          (fix try (cands : list (nat * op)) (budget : N) : bool * N :=
+             match cands with
+             | [] => (false, budget)
+             | x :: rest =>
+                 if N.eqb budget 0 then (false, 0) else
+                 if minimal x pending then
+                   (* the handler section of x, on the store as it is *)
+                   let '(s1, o) := ureq_body w s (op_req (snd x)) in
+                   let '(ok1, b1) :=
+                     if cresp_eqb (canon o) (op_resp (snd x))
+                     then lin_s f w obs_store s1 (drop (fst x) pending) proved (N.pred budget)
+                     else (false, budget) in
+                   if ok1 then (true, b1) else
+                   (* or the provisioning section of x, if it has not run yet and changes something *)
+                   let s2 := ureq_prov w s (op_req (snd x)) in
+                   let '(ok2, b2) :=
+                     if negb (existsb (Nat.eqb (fst x)) proved) && negb (cstore_eqb (canon_store s2) (canon_store s))
+                     then (if N.eqb b1 0 then (false, 0) else lin_s f w obs_store s2 pending (fst x :: proved) (N.pred b1))
+                     else (false, b1) in
+                   if ok2 then (true, b2) else try rest b2
+                 else try rest budget
+             end) pending budget
       end
   end.
 
-Definition sections_linearisable (w : cworld) (setup : list ureq) (ops : list op) (obs_store : cstore) : bool :=
+(* verdict on one recorded history: 0 = linearisable at request level ([handle_pre] per request),
+   1 = only when the gate's provisioning and the handler count as separate transactions,
+   2 = not even then, 3 = search budget exhausted *)
+Definition lin_verdict (w : cworld) (setup : list ureq) (ops : list op) (obs_store : cstore) (budget : N) : N :=
   let s0 := fst (run_spec w empty_store setup) in
-  lin_sections (2 * length ops + 1) w s0 (index_from 0 ops) [] obs_store.
+  let pending := index_from 0 ops in
+  let '(ok, b) := lin_b (S (length ops)) w obs_store s0 pending budget in
+  if ok then 0 else
+  let '(ok2, b2) := lin_s (2 * length ops + 1) w obs_store s0 pending [] budget in
+  if ok2 then 1 else if N.eqb b 0 || N.eqb b2 0 then 3 else 2.
